@@ -319,7 +319,14 @@ def check(ctx, case):
             audit.start(world.root)
         err = None
         try:
-            with simfile.mutate(inp, output_filename=out_path, backup_filename=bak_path, strict=case["strict"], **kw, **fskw) as s:
+            mkw = dict(kw)
+            if not case["strict"] or rng.random() < 0.5:
+                mkw["strict"] = case["strict"]  # otherwise rely on the documented default (strict)
+            if out_path or rng.random() < 0.5:
+                mkw["output_filename"] = out_path
+            if bak_path or rng.random() < 0.5:
+                mkw["backup_filename"] = bak_path
+            with simfile.mutate(inp, **mkw, **fskw) as s:
                 snaps["S0"] = copy.deepcopy(s)
                 for op in script:
                     if op[0] == "del?":
